@@ -74,6 +74,7 @@ def main():
             names |= set(re.findall(r'\bc17_\w+', txt))
             macros = set(re.findall(r'macro_rules!\s+(\w+)', txt)) | set(re.findall(r'\b(c17_\w+)!', txt))
             names -= macros
+            names = {n for n in names if not n.endswith('_')}
         sel = [dict(harness=n) for n in sorted(names) if any(re.search(p, n) for p in pats)]
     elif pats:
         sel = [s for s in specs if any(re.search(p, s['harness']) for p in pats)]
